@@ -1,4 +1,4 @@
-\* C19 contract refinement: keys "a" and "1:a" x versions 1..2 x prefix "" x backend TIMEOUT {None, 0, 2} x timeouts {DEFAULT, None, 0, 1}, numeric values, 2 instants
+\* C19 contract refinement: keys "a" and "1:a" x versions 1..2 x prefix "" x backend TIMEOUT {None, 0} x timeouts {DEFAULT, 1}, numeric values, 2 instants
 SPECIFICATION Spec
 CONSTANTS
   QBase = 10
@@ -9,10 +9,11 @@ CONSTANTS
   DKeys <- mc_DKeys
   DVals = {1}
   KeyPrefixes <- mc_OnePrefix
-  BackendTimeouts <- mc_Timeouts
+  BackendTimeouts <- mc_TimeoutNone
   MaxNow = 1
+  DjDev <- mc_NoDjDev
   MaxVer = 2
-  Tms <- mc_Tms
+  Tms <- mc_Tms2
 CONSTRAINT Bounded
 INVARIANT SameResults
 INVARIANT Agreement
